@@ -321,6 +321,49 @@ func GenScenario(p *Program, r *Rand, exec uint64, tagName string, k int) *Scena
 				keep(f.ID, predOutcome(false))
 			}
 		}
+	case "goexit":
+		// one to three functions kill their goroutine with runtime.Goexit
+		var cand []*Fn
+		for _, f := range fns {
+			if f.Role != "pred" || r.Chance(1, 3) {
+				cand = append(cand, f)
+			}
+		}
+		for n := 1 + r.Intn(3); n > 0 && len(cand) > 0; n-- {
+			f := cand[r.Intn(len(cand))]
+			if f.Role == "slice" || f.Role == "map" {
+				c := p.collOf(f.ID)
+				toks := s.Colls[c.Slot]
+				if len(toks) == 0 {
+					continue
+				}
+				if s.ElemOut[f.ID] == nil {
+					s.ElemOut[f.ID] = map[uint64]Outcome{}
+				}
+				s.ElemOut[f.ID][ElemKey(c, toks, r.Intn(len(toks)))] = Outcome{Kind: OGoexit}
+				continue
+			}
+			keep(f.ID, Outcome{Kind: OGoexit})
+		}
+	case "widegx":
+		// wide programs: a third of the functions kill their goroutine at once,
+		// the others are held until as many are in flight as the limit allows -
+		// the capacity must survive the dead workers
+		i := 0
+		for _, f := range fns {
+			if f.Role != "task" && f.Role != "ptask" {
+				continue
+			}
+			o := s.Out[f.ID]
+			if i%3 == k%3 {
+				o = Outcome{Kind: OGoexit}
+			} else {
+				o.Gate = true
+			}
+			s.Out[f.ID] = o
+			i++
+		}
+		s.GateOpen = "hwm"
 	case "wide":
 		// Every function is held until as many are in flight as the limit
 		// allows (and a little longer, so that any excess shows).
